@@ -448,18 +448,23 @@ func init() {
 		Level: "exploration",
 		Rule: "scripts = sequences of inbound messages (single or batch) over member kinds {gated call, instant call, erroring call, gated notification, instant notification, unknown-method call, " +
 			"unknown-method notification, invalid member with id, invalid member without id, call / notification whose handler fails with the codes -32600 / -32700, call returning pre-encoded multi-line JSON, call whose handler's error carries data that are not JSON (any error response is accepted for it)} with unique ids/tags, all sent before any gate opens (one message: every shape with batches up to 3 members; two messages: every ordered pair of shapes with batches up to 2 members — a seeded 40% of the pairs in the quick tier; three messages: seeded), x every release order of the gates (<=4; seeded beyond) " +
-			"x Concurrency in {1,2,16}; reference response calculator compared at every quiescent point; plus delay-bounded schedules and seeded perturbation. " +
+			"x Concurrency in {1,2,16}; reference response calculator compared at every quiescent point; plus delay-bounded schedules and seeded perturbation; " +
+			"T: ServerOptions.NewContext hands every request a 1 s deadline, all slots are taken by stubborn calls, scripts over {n,c,[n,c],[c,n],[n,n],[n,c,n]} queue up, virtual time advances 2 s, then everything is released and a probe call follows: every call answered exactly once in a message of the right shape (an error is accepted only for calls that had not started when their context ended), no handler twice, the probe served. " +
 			"distinct_nontrivial = distinct (script, concurrency, release order, delay set) with at least one call and at least two members",
 		Assumptions: []string{
 			"Go 1.26.8 runtime and testing/synctest quiescence; harness channel vchan",
 			"ids are unique within a script (id reuse is C07's subject)",
 		},
-		Require: map[string]int64{"handler_runs": 200, "outbound_records": 200},
+		Require: map[string]int64{"handler_runs": 200, "outbound_records": 200, "contexts_ended_while_waiting": 50, "calls_answered_with_context_error": 20},
 		Cases:   c01cases,
 	})
 }
 
 func c01cases(e vt.Env, yield func(vt.Case) bool) {
+	// T: request contexts that end while requests wait for a slot (c01_timeout.go)
+	if !c01tCases(e, yield) {
+		return
+	}
 	shapes2 := c01shapes(2) // 9 + 9 + 81 = 99
 	concs := []int{1, 2, 16}
 	pickConc := func(sig string) []int {
